@@ -119,6 +119,14 @@ class InterpolatingOpacity(Opacity):
         if check_pressure_min and check_temperature_min:
             return np.zeros_like(self.xsecGrid[0, 0, wngrid_filter]).ravel()
 
+        # Mixed corners: outside the grid in both directions, use the
+        # nearest corner node instead of extrapolating along one axis
+        if check_pressure_max and check_temperature_min:
+            return self.xsecGrid[-1, 0, wngrid_filter].ravel()
+
+        if check_pressure_min and check_temperature_max:
+            return self.xsecGrid[0, -1, wngrid_filter].ravel()
+
         # Max pressure
         if check_pressure_max:
             self.debug('Max pressure reached. Interpolating temperature only')
